@@ -226,6 +226,7 @@ func TestVerifC13Load(t *testing.T) {
 	nInvalid += c13DefaultsProbe(out, factories, nInvalid)
 	nInvalid += c13ServiceProbe(out, factories, nInvalid)
 	nInvalid += c13StrictAll(out, factories, nInvalid)
+	nInvalid += c13RuleCombos(out, factories, nInvalid)
 	for _, c := range vCases(vN(300)) {
 		if c < nInvalid {
 			continue // case indices 0..nInvalid-1 are the corpus of invalid nested values
@@ -1824,4 +1825,222 @@ func c13ServiceHistory(out *vOut, factories otelcol.Factories, first int) int {
 		closeCase()
 	}
 	return n
+}
+
+// ---- rule-level coverage of the built-in Validate() methods -----------------------------------------------------
+// The walk theorem is about the walker. Each built-in Validate() is a conjunction of rules; that a rule is still evaluated
+// when OTHER settings of the same struct are written (valid ones or other violations) is tied by this combination
+// differential, not by a theorem: every violating setting alone, every pair of violating settings, and every violating
+// setting together with every valid co-setting of the same component. Rules of one Validate() (same `group`) may mask each
+// other (it returns on the first failure): at least one violated rule of every group must be reported; rules of different
+// groups (different nested values) must ALL be reported (the walker collects them).
+
+type c13Rule struct {
+	comp   string         // section/id in c13ValidBase
+	name   string         // rule name (signature)
+	group  string         // the Validate() the rule belongs to
+	keys   map[string]any // key path (below the component) -> value
+	expect string         // substring of the error
+	reads  []string       // settings the rule depends on besides the ones it writes
+}
+
+type c13Co struct {
+	comp string
+	name string
+	keys map[string]any
+}
+
+func c13Rules() ([]c13Rule, []c13Co) {
+	var rules []c13Rule
+	var cos []c13Co
+	batchOK := map[string]any{"flush_timeout": "1s", "min_size": 10, "max_size": 0}
+	for _, exp := range []string{"exporters/otlp", "exporters/otlphttp"} {
+		q := "queuebatch.Config@" + exp
+		b := "queuebatch.BatchConfig@" + exp
+		r := "configretry.BackOffConfig@" + exp
+		rules = append(rules,
+			c13Rule{exp, "queue-num_consumers-not-positive", q, map[string]any{"sending_queue::num_consumers": 0}, "num_consumers", []string{"sending_queue::enabled"}},
+			c13Rule{exp, "queue-queue_size-not-positive", q, map[string]any{"sending_queue::queue_size": -1}, "queue_size", []string{"sending_queue::enabled"}},
+			c13Rule{exp, "queue-storage-with-wait_for_result", q, map[string]any{"sending_queue::storage": "file_storage", "sending_queue::wait_for_result": true}, "wait_for_result", []string{"sending_queue::enabled"}},
+			c13Rule{exp, "queue-storage-with-non-requests-sizer", q, map[string]any{"sending_queue::storage": "file_storage", "sending_queue::sizer": "items"}, "sizer", []string{"sending_queue::enabled", "sending_queue::wait_for_result"}}, // storage + wait_for_result is the rule above (same Validate)
+			c13Rule{exp, "queue-batch-with-requests-sizer", q, map[string]any{"sending_queue::batch": batchOK}, "`batch` supports only", []string{"sending_queue::enabled", "sending_queue::sizer"}},
+			c13Rule{exp, "batch-flush_timeout-not-positive", b, map[string]any{"sending_queue::sizer": "items", "sending_queue::batch": map[string]any{"flush_timeout": "0s"}}, "flush_timeout", []string{"sending_queue::enabled", "sending_queue::storage"}},
+			c13Rule{exp, "batch-min_size-negative", b, map[string]any{"sending_queue::sizer": "items", "sending_queue::batch": map[string]any{"flush_timeout": "1s", "min_size": -1}}, "min_size", []string{"sending_queue::enabled", "sending_queue::storage"}},
+			c13Rule{exp, "batch-max_size-below-min_size", b, map[string]any{"sending_queue::sizer": "items", "sending_queue::batch": map[string]any{"flush_timeout": "1s", "min_size": 10, "max_size": 5}}, "max_size", []string{"sending_queue::enabled", "sending_queue::storage"}},
+			c13Rule{exp, "retry-multiplier-negative", r, map[string]any{"retry_on_failure::multiplier": -1.0}, "multiplier", []string{"retry_on_failure::enabled"}},
+			c13Rule{exp, "retry-randomization_factor-out-of-range", r, map[string]any{"retry_on_failure::randomization_factor": 2.0}, "randomization_factor", []string{"retry_on_failure::enabled"}},
+			c13Rule{exp, "retry-initial_interval-negative", r, map[string]any{"retry_on_failure::initial_interval": "-1s"}, "initial_interval", []string{"retry_on_failure::enabled", "retry_on_failure::max_elapsed_time"}},
+			c13Rule{exp, "retry-max_interval-negative", r, map[string]any{"retry_on_failure::max_interval": "-1s"}, "max_interval", []string{"retry_on_failure::enabled", "retry_on_failure::max_elapsed_time"}},
+			c13Rule{exp, "retry-max_elapsed_time-negative", r, map[string]any{"retry_on_failure::max_elapsed_time": "-1s"}, "max_elapsed_time", []string{"retry_on_failure::enabled"}},
+			c13Rule{exp, "tls-ca_file-and-ca_pem", "configtls.Config@" + exp, map[string]any{"tls::ca_file": "/nonexistent/ca.pem", "tls::ca_pem": "x"}, "tls", nil},
+			c13Rule{exp, "tls-min-above-max", "configtls.Config@" + exp, map[string]any{"tls::min_version": "1.3", "tls::max_version": "1.2"}, "min_version", nil},
+		)
+		cos = append(cos,
+			c13Co{exp, "storage-set", map[string]any{"sending_queue::storage": "file_storage"}},
+			c13Co{exp, "wait_for_result", map[string]any{"sending_queue::wait_for_result": true}},
+			c13Co{exp, "block_on_overflow", map[string]any{"sending_queue::block_on_overflow": true}},
+			c13Co{exp, "sizer-items", map[string]any{"sending_queue::sizer": "items"}},
+			c13Co{exp, "sizer-bytes", map[string]any{"sending_queue::sizer": "bytes"}},
+			c13Co{exp, "batch-set", map[string]any{"sending_queue::sizer": "items", "sending_queue::batch": batchOK}},
+			c13Co{exp, "queue_size", map[string]any{"sending_queue::queue_size": 5}},
+			c13Co{exp, "num_consumers", map[string]any{"sending_queue::num_consumers": 3}},
+			c13Co{exp, "retry-intervals", map[string]any{"retry_on_failure::initial_interval": "1s", "retry_on_failure::max_interval": "2s", "retry_on_failure::max_elapsed_time": "10s"}},
+			c13Co{exp, "retry-max_elapsed_time-zero", map[string]any{"retry_on_failure::max_elapsed_time": "0s"}},
+			c13Co{exp, "timeout", map[string]any{"timeout": "3s"}},
+			c13Co{exp, "compression", map[string]any{"compression": "zstd"}},
+			c13Co{exp, "headers", map[string]any{"headers": map[string]any{"authorization": "x"}}},
+			c13Co{exp, "tls-insecure", map[string]any{"tls::insecure": true}},
+			c13Co{exp, "tls-versions", map[string]any{"tls::min_version": "1.2", "tls::max_version": "1.3"}},
+		)
+	}
+	rules = append(rules,
+		c13Rule{"exporters/otlp", "timeout-negative", "exporterhelper.TimeoutConfig@exporters/otlp", map[string]any{"timeout": "-1s"}, "timeout", nil},
+		c13Rule{"exporters/otlp", "balancer_name-unknown", "configgrpc.ClientConfig@exporters/otlp", map[string]any{"balancer_name": "no_such_balancer"}, "balancer_name", nil},
+		c13Rule{"exporters/otlp", "endpoint-empty", "otlpexporter.Config", map[string]any{"endpoint": ""}, "endpoint", nil},
+		c13Rule{"exporters/otlphttp", "endpoint-missing", "otlphttpexporter.Config", map[string]any{"endpoint": ""}, "endpoint", []string{"traces_endpoint", "metrics_endpoint", "logs_endpoint"}},
+		c13Rule{"receivers/otlp", "grpc-read_buffer_size-negative", "configgrpc.ServerConfig", map[string]any{"protocols::grpc::read_buffer_size": -1}, "read_buffer_size", nil},
+		c13Rule{"receivers/otlp", "grpc-write_buffer_size-negative", "configgrpc.ServerConfig", map[string]any{"protocols::grpc::write_buffer_size": -1}, "write_buffer_size", nil},
+		c13Rule{"receivers/otlp", "grpc-max_recv_msg_size_mib-negative", "configgrpc.ServerConfig", map[string]any{"protocols::grpc::max_recv_msg_size_mib": -1}, "max_recv_msg_size_mib", nil},
+		c13Rule{"receivers/otlp", "grpc-tls-min-above-max", "configtls.Config@grpc", map[string]any{"protocols::grpc::tls": map[string]any{"min_version": "1.3", "max_version": "1.2"}}, "min_version", nil},
+		c13Rule{"receivers/otlp", "grpc-tls-ca_file-and-ca_pem", "configtls.Config@grpc", map[string]any{"protocols::grpc::tls": map[string]any{"ca_file": "/nonexistent/ca.pem", "ca_pem": "x"}}, "grpc::tls", nil},
+		c13Rule{"receivers/otlp", "http-tls-min-above-max", "configtls.Config@http", map[string]any{"protocols::http::tls": map[string]any{"min_version": "1.3", "max_version": "1.2"}}, "min_version", nil},
+		c13Rule{"processors/batch", "send_batch_max_size-below-send_batch_size", "batchprocessor.Config", map[string]any{"send_batch_max_size": 1}, "send_batch_max_size", []string{"send_batch_size"}},
+		c13Rule{"processors/batch", "metadata_keys-duplicate", "batchprocessor.Config", map[string]any{"metadata_keys": []any{"tenant", "Tenant"}}, "metadata_keys", nil},
+		c13Rule{"processors/batch", "timeout-negative", "batchprocessor.Config", map[string]any{"timeout": "-1s"}, "timeout", nil},
+		c13Rule{"processors/memory_limiter", "check_interval-not-positive", "memorylimiter.Config", map[string]any{"check_interval": "0s"}, "check_interval", nil},
+		c13Rule{"processors/memory_limiter", "no-limit", "memorylimiter.Config", map[string]any{"limit_mib": 0}, "limit", []string{"limit_percentage"}},
+		c13Rule{"processors/memory_limiter", "spike-above-limit", "memorylimiter.Config", map[string]any{"limit_mib": 100, "spike_limit_mib": 200}, "spike_limit_mib", nil},
+		c13Rule{"processors/memory_limiter", "percentage-above-100", "memorylimiter.Config", map[string]any{"limit_percentage": 150}, "percentage", nil},
+		c13Rule{"exporters/debug", "verbosity-none", "debugexporter.Config", map[string]any{"verbosity": "none"}, "verbosity", nil},
+		c13Rule{"extensions/zpages", "tls-min-above-max", "configtls.Config@zpages", map[string]any{"tls": map[string]any{"min_version": "1.3", "max_version": "1.2"}}, "min_version", nil},
+	)
+	cos = append(cos,
+		c13Co{"receivers/otlp", "grpc-keepalive", map[string]any{"protocols::grpc::keepalive": map[string]any{"server_parameters": map[string]any{"time": "10s"}}}},
+		c13Co{"receivers/otlp", "grpc-include_metadata", map[string]any{"protocols::grpc::include_metadata": true}},
+		c13Co{"receivers/otlp", "grpc-max_concurrent_streams", map[string]any{"protocols::grpc::max_concurrent_streams": 7}},
+		c13Co{"receivers/otlp", "http-cors", map[string]any{"protocols::http::cors": map[string]any{"allowed_origins": []any{"https://a.example"}}}},
+		c13Co{"receivers/otlp", "http-response_headers", map[string]any{"protocols::http::response_headers": map[string]any{"x": "y"}}},
+		c13Co{"processors/batch", "send_batch_size", map[string]any{"send_batch_size": 100}},
+		c13Co{"processors/batch", "metadata_cardinality_limit", map[string]any{"metadata_cardinality_limit": 5}},
+		c13Co{"processors/memory_limiter", "min_gc_intervals", map[string]any{"min_gc_interval_when_soft_limited": "20s", "min_gc_interval_when_hard_limited": "1s"}},
+		c13Co{"exporters/debug", "sampling", map[string]any{"sampling_initial": 3, "sampling_thereafter": 9}},
+		c13Co{"extensions/zpages", "expvar", map[string]any{"expvar": map[string]any{"enabled": true}}},
+	)
+	return rules, cos
+}
+
+// c13KeysConflict: the two key sets write (or one reads what the other writes) the same setting with different values.
+func c13KeysConflict(a, b map[string]any, aReads, bReads []string) bool {
+	over := func(p, q string) bool { return p == q || strings.HasPrefix(p, q+"::") || strings.HasPrefix(q, p+"::") }
+	for p, pv := range a {
+		for q, qv := range b {
+			if over(p, q) && !(p == q && reflect.DeepEqual(pv, qv)) {
+				return true
+			}
+		}
+		for _, r := range bReads {
+			if over(p, r) {
+				return true
+			}
+		}
+	}
+	for q := range b {
+		for _, r := range aReads {
+			if over(q, r) {
+				return true
+			}
+		}
+	}
+	return false
+}
+
+func c13RuleCombos(out *vOut, factories otelcol.Factories, first int) int {
+	rules, cos := c13Rules()
+	apply := func(root map[string]any, comp string, keys map[string]any) {
+		st := strings.SplitN(comp, "/", 2)
+		m := root[st[0]].(map[string]any)[st[1]].(map[string]any)
+		for p, v := range keys {
+			c13SetPath(m, p, v)
+		}
+	}
+	validate := func(root map[string]any) (string, bool) {
+		cfg, err := c13LoadJSON(factories, root)
+		if err != nil {
+			return err.Error(), true
+		}
+		if verr := xconfmap.Validate(cfg); verr != nil {
+			return verr.Error(), true
+		}
+		return "", false
+	}
+	out.Linef("case %d rule-combinations", first)
+	out.Linef("op inst id=%s def=- w=-", vHex("rule-combinations"))
+	out.Linef("obs eff -")
+	checks := 0
+	report := func(r c13Rule, co string, msg string) {
+		st := strings.SplitN(r.group, "@", 2)
+		out.Linef("viol sig=C13/validate/violated-rule-not-reported/%s/%s/%s at=%s errors=%s", st[0], r.name, co, r.comp, vHex(msg))
+	}
+	// the valid co-settings are valid
+	for _, c := range cos {
+		root := c13ValidBase()
+		apply(root, c.comp, c.keys)
+		if msg, rejected := validate(root); rejected {
+			out.Linef("viol sig=C13/gen/co-setting-not-valid/%s/%s err=%s", c.comp, c.name, vHex(msg))
+		}
+	}
+	for i, r := range rules {
+		// alone
+		root := c13ValidBase()
+		apply(root, r.comp, r.keys)
+		msg, rejected := validate(root)
+		checks++
+		if !rejected || !strings.Contains(msg, r.expect) {
+			report(r, "alone", msg)
+			continue
+		}
+		// with every valid co-setting of the same component
+		for _, c := range cos {
+			if c.comp != r.comp || c13KeysConflict(r.keys, c.keys, r.reads, nil) {
+				continue
+			}
+			root := c13ValidBase()
+			apply(root, c.comp, c.keys)
+			apply(root, r.comp, r.keys)
+			msg, rejected := validate(root)
+			checks++
+			if !rejected || !strings.Contains(msg, r.expect) {
+				report(r, c.name, msg)
+			}
+		}
+		// with every other violating setting (any component)
+		for j, r2 := range rules {
+			if j <= i || (r.comp == r2.comp && c13KeysConflict(r.keys, r2.keys, r.reads, r2.reads)) {
+				continue
+			}
+			root := c13ValidBase()
+			apply(root, r.comp, r.keys)
+			apply(root, r2.comp, r2.keys)
+			msg, rejected := validate(root)
+			checks++
+			has1, has2 := strings.Contains(msg, r.expect), strings.Contains(msg, r2.expect)
+			sameGroup := r.group == r2.group
+			switch {
+			case !rejected:
+				report(r, "with-"+r2.name, msg)
+			case sameGroup && !has1 && !has2:
+				report(r, "with-"+r2.name, msg)
+			case !sameGroup && !has1:
+				report(r, "with-"+r2.name, msg)
+			case !sameGroup && !has2:
+				report(r2, "with-"+r.name, msg)
+			}
+		}
+	}
+	out.Linef("stat rule_combination_checks %d", checks)
+	out.Linef("stat rule_table_rules %d", len(rules))
+	out.Linef("nt")
+	out.Linef("end")
+	out.Flush()
+	return 1
 }
